@@ -74,7 +74,9 @@ Section R.
                   ~ In (pg ev) (Hd s)) ->
     PB (fst (flush fuel s bs i)) /\ tab (fst (flush fuel s bs i)) = tab s.
   Proof.
-    induction fuel as [|f IH]; intros s bs i Hi P Hin Nd Fr; simpl; auto.
+    induction fuel as [|f IH]; intros s bs i Hi P Hin Nd Fr; simpl.
+    { destruct (Nat.ltb (bs_processed bs) (length (bs_results bs)) && nth i (bs_results bs) false); simpl; auto.
+      split; auto. apply (PB_same s); auto. }
     destruct (Nat.ltb (bs_processed bs) (length (bs_results bs)) && nth i (bs_results bs) false); auto.
     destruct (nth_error (b_events (bs_batch bs)) i) as [ev|] eqn:En; auto.
     destruct (PB_process fc fp lim_n lim_s s ev P) as [P1 [T1 H1]].
@@ -129,9 +131,10 @@ Section R.
     assert (QT' : forall s', queue s' = queue s -> tab s' = tab s -> QT (pre ++ [x]) s').
     { intros s' Eq Et. split; [rewrite Eq, Et; exact Qev | unfold pgs; rewrite Et; eapply incl_tran; eauto]. }
     destruct OIs as [Ihd Iqin Iqnd Iord]. destruct UIs as [Uarr Uun].
-    destruct x as [b0 | bid pos | | ]; simpl.
+    destruct x as [b0 | bid pos | | | | ]; simpl.
     - (* SEnq *)
-      unfold Processor.enqueue. destruct (stopped s) eqn:Es; [split; [exact P | split; [apply QT'; auto | exact St]]|].
+      unfold Processor.enqueue. destruct (quitf s || stopped s) eqn:Eqs; [split; [exact P | split; [apply QT'; auto | exact St]]|].
+      assert (Es : stopped s = false) by (apply orb_false_iff in Eqs; tauto).
       destruct ((cap_n <? held_n s + batch_num b0) || (cap_s <? held_s s + batch_size b0)).
       + split; [apply (PB_same s); auto | split; [apply QT'; auto | exact St]].
       + rewrite Eall in Nd.
@@ -263,9 +266,9 @@ Section R.
         * unfold pgs. simpl. rewrite T1. eapply incl_tran; eauto.
     - (* SStop *)
       unfold Processor.stop. destruct (stopped s) eqn:Es; [split; [exact P | split; [apply QT'; auto | exact St]]|].
-      set (s0 := match queue s with bs :: _ => pemit s (PAborted (b_id (bs_batch bs))) | [] => s end).
+      set (s0 := match queue s with bs :: _ => if quitf s then s else pemit s (PAborted (b_id (bs_batch bs))) | [] => s end).
       assert (P0 : PB s0 /\ tab s0 = tab s /\ queue s0 = queue s /\ buf s0 = buf s /\ pushed s0 = pushed s /\ Hd s0 = Hd s).
-      { unfold s0. destruct (queue s) eqn:Q; [auto 10|]. split; [apply (PB_same s); auto|]. simpl. auto 10. }
+      { unfold s0. destruct (queue s) eqn:Q; [auto 10|]. destruct (quitf s); [auto 10|]. split; [apply (PB_same s); auto|]. simpl. auto 10. }
       destruct P0 as [P0 [T0 [Q0 [B0 [Pu0 H0]]]]].
       destruct P0 as [[ops [Eb Elen]] Nt Nh Hh [directs [Pm1 Pm2]] Sm].
       set (ops' := ops ++ [OpClear]).
@@ -291,6 +294,15 @@ Section R.
       split; [exact F | split].
       + split; [simpl; rewrite Eq, Q0, Et, T0; exact Qev | unfold pgs; simpl; rewrite Et, T0; eapply incl_tran; eauto].
       + intros _. simpl. rewrite Ebf. apply (clear_buf_ok lim_n lim_s (copies_of ops)). rewrite Eb. apply run_inv.
+    - (* SQuit *)
+      unfold quit. destruct (stopped s) eqn:Es; [split; [exact P | split; [apply QT'; auto | exact St]]|].
+      split; [apply (PB_same s); auto | split; [apply QT'; auto | intros H; simpl in H; congruence]].
+    - (* SAbort *)
+      unfold abort. destruct (stopped s || negb (quitf s)) eqn:Eqs; [split; [exact P | split; [apply QT'; auto | exact St]]|].
+      assert (Es : stopped s = false) by (apply orb_false_iff in Eqs; tauto).
+      destruct (queue s) as [|bs rest] eqn:Q; [split; [exact P | split; [apply QT'; auto | exact St]]|].
+      split; [apply (PB_same s); auto | split; [|intros H; simpl in H; congruence]].
+      split; [simpl; intros bs' Hb; apply Qev; right; exact Hb | unfold pgs; simpl; eapply incl_tran; eauto].
   Qed.
 
   Record ALL (pre : list pstep) (s : pst) : Prop := mkALL {
